@@ -4,7 +4,10 @@
 //     losing its anchors), the three forwarding `Gcd` impls (`self.as_ref().gcd(rhs.as_ref())` ..) + repr.rs TypedRepr::as_ref;
 //   * the UBig / IBig level macro arms impl_ubig_gcd_ext, impl_ibig_gcd, impl_ibig_gcd_ext (rule E3), each instantiated for the four
 //     (owned | borrowed) operand combinations the forwarding macros of helper_macros.rs supply, with sign.rs `Sign * IBig`,
-//     `Signed::sign for IBig`, base/src/sign.rs `Sign * Sign` as verified real code.
+//     `Signed::sign for IBig`, base/src/sign.rs `Sign * Sign` as verified real code;
+//   * helper_macros.rs: the 32 forwarding impls `a.gcd(b)`, `(&a).gcd(b)`, `a.gcd(&b)`, `(&a).gcd(&b)` and the same for gcd_ext,
+//     for (UBig, UBig), (IBig, IBig), (UBig, IBig), (IBig, UBig), with the macro arm inlined:  g = gcd of the signed operands,
+//     s*a + t*b == g with (s, t) in the order (self, rhs).
 // The helpers gcd_ext_dword / gcd_ext_large_dword / gcd_ext_large / gcd_large_dword / gcd_large and the (ref, ref) Gcd dispatch
 // enter through the contracts PROVED in unit int_gcd_ops (//@@ SIG of the same annotated copies).
 #![allow(unused_imports, unused_variables, dead_code, non_snake_case, unused_mut, unused_parens, unused_braces)]
@@ -149,5 +152,39 @@ impl Mul<IBig> for Sign { type Output = IBig;
 //@@ FN integer/intmisc/ibig_gcd_ext_arm.rs wrap=ibig_gcd_ext_rv
 //@@ WRAP ibig_gcd_ext_rr fn ibig_gcd_ext_rr(sign0: Sign, mag0: TypedReprRef, sign1: Sign, mag1: TypedReprRef) -> (UBig, IBig, IBig)
 //@@ FN integer/intmisc/ibig_gcd_ext_arm.rs wrap=ibig_gcd_ext_rr
+// ---- helper_macros.rs: the forwarding impls (UBig | &UBig | IBig | &IBig on both sides) instantiated for Gcd / ExtendedGcd (rules E3b /
+// E3e `$method`, the `$impl!` invocation inlined from the arm copies above: rule E3d) -- the public operator forms -------------
+//@@ FN integer/intmisc/fwd_uu_gcd_vv.rs msubst=trait:Gcd,method:gcd,forward:gcd
+//@@ FN integer/intmisc/fwd_uu_gcd_vr.rs msubst=trait:Gcd,method:gcd,forward:gcd
+//@@ FN integer/intmisc/fwd_uu_gcd_rv.rs msubst=trait:Gcd,method:gcd,forward:gcd
+//@@ FN integer/intmisc/fwd_uu_gcd_rr.rs msubst=trait:Gcd,method:gcd,forward:gcd
+//@@ FN integer/intmisc/fwd_uu_gcd_ext_vv.rs msubst=trait:ExtendedGcd,method:gcd_ext,omethod:GcdExtOut,impl:impl_ubig_gcd_ext variant=inl minline=impl_ubig_gcd_ext:integer/intmisc/ubig_gcd_ext_arm.rs
+//@@ FN integer/intmisc/fwd_uu_gcd_ext_vr.rs msubst=trait:ExtendedGcd,method:gcd_ext,omethod:GcdExtOut,impl:impl_ubig_gcd_ext variant=inl minline=impl_ubig_gcd_ext:integer/intmisc/ubig_gcd_ext_arm.rs
+//@@ FN integer/intmisc/fwd_uu_gcd_ext_rv.rs msubst=trait:ExtendedGcd,method:gcd_ext,omethod:GcdExtOut,impl:impl_ubig_gcd_ext variant=inl minline=impl_ubig_gcd_ext:integer/intmisc/ubig_gcd_ext_arm.rs
+//@@ FN integer/intmisc/fwd_uu_gcd_ext_rr.rs msubst=trait:ExtendedGcd,method:gcd_ext,omethod:GcdExtOut,impl:impl_ubig_gcd_ext variant=inl minline=impl_ubig_gcd_ext:integer/intmisc/ubig_gcd_ext_arm.rs
+//@@ FN integer/intmisc/fwd_ii_gcd_vv.rs msubst=trait:Gcd,method:gcd,ty_output:UBig,impl:impl_ibig_gcd variant=inl minline=impl_ibig_gcd:integer/intmisc/ibig_gcd_arm.rs
+//@@ FN integer/intmisc/fwd_ii_gcd_vr.rs msubst=trait:Gcd,method:gcd,ty_output:UBig,impl:impl_ibig_gcd variant=inl minline=impl_ibig_gcd:integer/intmisc/ibig_gcd_arm.rs
+//@@ FN integer/intmisc/fwd_ii_gcd_rv.rs msubst=trait:Gcd,method:gcd,ty_output:UBig,impl:impl_ibig_gcd variant=inl minline=impl_ibig_gcd:integer/intmisc/ibig_gcd_arm.rs
+//@@ FN integer/intmisc/fwd_ii_gcd_rr.rs msubst=trait:Gcd,method:gcd,ty_output:UBig,impl:impl_ibig_gcd variant=inl minline=impl_ibig_gcd:integer/intmisc/ibig_gcd_arm.rs
+//@@ FN integer/intmisc/fwd_ii_gcd_ext_vv.rs msubst=trait:ExtendedGcd,method:gcd_ext,omethod:GcdExtOut,impl:impl_ibig_gcd_ext variant=inl minline=impl_ibig_gcd_ext:integer/intmisc/ibig_gcd_ext_arm.rs
+//@@ FN integer/intmisc/fwd_ii_gcd_ext_vr.rs msubst=trait:ExtendedGcd,method:gcd_ext,omethod:GcdExtOut,impl:impl_ibig_gcd_ext variant=inl minline=impl_ibig_gcd_ext:integer/intmisc/ibig_gcd_ext_arm.rs
+//@@ FN integer/intmisc/fwd_ii_gcd_ext_rv.rs msubst=trait:ExtendedGcd,method:gcd_ext,omethod:GcdExtOut,impl:impl_ibig_gcd_ext variant=inl minline=impl_ibig_gcd_ext:integer/intmisc/ibig_gcd_ext_arm.rs
+//@@ FN integer/intmisc/fwd_ii_gcd_ext_rr.rs msubst=trait:ExtendedGcd,method:gcd_ext,omethod:GcdExtOut,impl:impl_ibig_gcd_ext variant=inl minline=impl_ibig_gcd_ext:integer/intmisc/ibig_gcd_ext_arm.rs
+//@@ FN integer/intmisc/fwd_ui_gcd_vv.rs msubst=trait:Gcd,method:gcd,ty_output:UBig,impl:impl_ibig_gcd variant=inl minline=impl_ibig_gcd:integer/intmisc/ibig_gcd_arm.rs
+//@@ FN integer/intmisc/fwd_ui_gcd_vr.rs msubst=trait:Gcd,method:gcd,ty_output:UBig,impl:impl_ibig_gcd variant=inl minline=impl_ibig_gcd:integer/intmisc/ibig_gcd_arm.rs
+//@@ FN integer/intmisc/fwd_ui_gcd_rv.rs msubst=trait:Gcd,method:gcd,ty_output:UBig,impl:impl_ibig_gcd variant=inl minline=impl_ibig_gcd:integer/intmisc/ibig_gcd_arm.rs
+//@@ FN integer/intmisc/fwd_ui_gcd_rr.rs msubst=trait:Gcd,method:gcd,ty_output:UBig,impl:impl_ibig_gcd variant=inl minline=impl_ibig_gcd:integer/intmisc/ibig_gcd_arm.rs
+//@@ FN integer/intmisc/fwd_ui_gcd_ext_vv.rs msubst=trait:ExtendedGcd,method:gcd_ext,omethod:GcdExtOut,impl:impl_ibig_gcd_ext variant=inl minline=impl_ibig_gcd_ext:integer/intmisc/ibig_gcd_ext_arm.rs
+//@@ FN integer/intmisc/fwd_ui_gcd_ext_vr.rs msubst=trait:ExtendedGcd,method:gcd_ext,omethod:GcdExtOut,impl:impl_ibig_gcd_ext variant=inl minline=impl_ibig_gcd_ext:integer/intmisc/ibig_gcd_ext_arm.rs
+//@@ FN integer/intmisc/fwd_ui_gcd_ext_rv.rs msubst=trait:ExtendedGcd,method:gcd_ext,omethod:GcdExtOut,impl:impl_ibig_gcd_ext variant=inl minline=impl_ibig_gcd_ext:integer/intmisc/ibig_gcd_ext_arm.rs
+//@@ FN integer/intmisc/fwd_ui_gcd_ext_rr.rs msubst=trait:ExtendedGcd,method:gcd_ext,omethod:GcdExtOut,impl:impl_ibig_gcd_ext variant=inl minline=impl_ibig_gcd_ext:integer/intmisc/ibig_gcd_ext_arm.rs
+//@@ FN integer/intmisc/fwd_iu_gcd_vv.rs msubst=trait:Gcd,method:gcd,ty_output:UBig,impl:impl_ibig_gcd variant=inl minline=impl_ibig_gcd:integer/intmisc/ibig_gcd_arm.rs
+//@@ FN integer/intmisc/fwd_iu_gcd_vr.rs msubst=trait:Gcd,method:gcd,ty_output:UBig,impl:impl_ibig_gcd variant=inl minline=impl_ibig_gcd:integer/intmisc/ibig_gcd_arm.rs
+//@@ FN integer/intmisc/fwd_iu_gcd_rv.rs msubst=trait:Gcd,method:gcd,ty_output:UBig,impl:impl_ibig_gcd variant=inl minline=impl_ibig_gcd:integer/intmisc/ibig_gcd_arm.rs
+//@@ FN integer/intmisc/fwd_iu_gcd_rr.rs msubst=trait:Gcd,method:gcd,ty_output:UBig,impl:impl_ibig_gcd variant=inl minline=impl_ibig_gcd:integer/intmisc/ibig_gcd_arm.rs
+//@@ FN integer/intmisc/fwd_iu_gcd_ext_vv.rs msubst=trait:ExtendedGcd,method:gcd_ext,omethod:GcdExtOut,impl:impl_ibig_gcd_ext variant=inl minline=impl_ibig_gcd_ext:integer/intmisc/ibig_gcd_ext_arm.rs
+//@@ FN integer/intmisc/fwd_iu_gcd_ext_vr.rs msubst=trait:ExtendedGcd,method:gcd_ext,omethod:GcdExtOut,impl:impl_ibig_gcd_ext variant=inl minline=impl_ibig_gcd_ext:integer/intmisc/ibig_gcd_ext_arm.rs
+//@@ FN integer/intmisc/fwd_iu_gcd_ext_rv.rs msubst=trait:ExtendedGcd,method:gcd_ext,omethod:GcdExtOut,impl:impl_ibig_gcd_ext variant=inl minline=impl_ibig_gcd_ext:integer/intmisc/ibig_gcd_ext_arm.rs
+//@@ FN integer/intmisc/fwd_iu_gcd_ext_rr.rs msubst=trait:ExtendedGcd,method:gcd_ext,omethod:GcdExtOut,impl:impl_ibig_gcd_ext variant=inl minline=impl_ibig_gcd_ext:integer/intmisc/ibig_gcd_ext_arm.rs
 } // verus!
 fn main() {}
